@@ -64,6 +64,9 @@ fn build(p: &Project, seed: Option<u64>, dir: &Path) -> BTreeMap<String, Vec<u8>
     let _ = std::fs::remove_dir_all(dir);
     std::fs::create_dir_all(dir).unwrap();
     for (n, t) in &p.files {
+        if let Some(parent) = dir.join(n).parent() {
+            std::fs::create_dir_all(parent).unwrap();
+        }
         std::fs::write(dir.join(n), t).unwrap();
     }
     if !p.toml.is_empty() {
@@ -85,13 +88,18 @@ fn build(p: &Project, seed: Option<u64>, dir: &Path) -> BTreeMap<String, Vec<u8>
             out.insert("spawn-error".to_string(), e.to_string().into_bytes());
         }
     }
-    if let Ok(rd) = std::fs::read_dir(dir.join("target")) {
-        for e in rd.flatten() {
-            if e.path().is_file() {
-                out.insert(
-                    format!("target/{}", e.file_name().to_string_lossy()),
-                    std::fs::read(e.path()).unwrap_or_default(),
-                );
+    // every file below target/, by relative path
+    let mut stack = vec![dir.join("target")];
+    while let Some(d) = stack.pop() {
+        if let Ok(rd) = std::fs::read_dir(&d) {
+            for e in rd.flatten() {
+                let path = e.path();
+                if path.is_dir() {
+                    stack.push(path);
+                } else if path.is_file() {
+                    let rel = path.strip_prefix(dir).map(|r| r.to_string_lossy().to_string()).unwrap_or_default();
+                    out.insert(rel, std::fs::read(&path).unwrap_or_default());
+                }
             }
         }
     }
@@ -180,6 +188,31 @@ fn segment_projects(max_len: usize) -> Vec<Project> {
                 toml: "[build]\nlisting = true\nsymbols = [\"vice\"]\n".into(),
             });
         }
+    }
+    out
+}
+
+/// Projects whose imported files share a file name in different directories (and one that differs in
+/// the extension only), built with listings: every file's listing has to come out, the same in every run.
+fn same_stem_projects() -> Vec<Project> {
+    let mut out = vec![];
+    let toml = "[build]\nlisting = true\nsymbols = [\"vice\"]\n".to_string();
+    for variant in 0..4 {
+        let (main, files): (&str, Vec<(&str, &str)>) = match variant {
+            0 => (".import * as a from \"x/util.asm\"\n.import * as b from \"y/util.asm\"\nnop\n", vec![("x/util.asm", "ux: lda #1\n"), ("y/util.asm", "uy: ldx #2\nrts\n")]),
+            1 => (".import * as a from \"x/util.asm\"\n.import * as b from \"y/util.asm\"\n.import * as c from \"util.asm\"\nnop\n", vec![("x/util.asm", "ux: lda #1\n"), ("y/util.asm", "uy: ldx #2\nrts\n"), ("util.asm", "u0: ldy #3\n")]),
+            2 => (".import * as a from \"lib/main.asm\"\nnop\n", vec![("lib/main.asm", "lm: lda #1\n")]),
+            _ => (".import * as a from \"x/y/util.asm\"\n.import * as b from \"x/util.asm\"\nnop\n", vec![("x/y/util.asm", "ux: lda #1\n"), ("x/util.asm", "uy: ldx #2\nrts\n")]),
+        };
+        let mut fs = vec![("main.asm".to_string(), main.to_string())];
+        // (the positions 1..4 are what the non-triviality key of the main loop looks at)
+        for (n, t) in &files {
+            fs.push((n.to_string(), t.to_string()));
+        }
+        while fs.len() < 5 {
+            fs.push((format!("unused{}.asm", fs.len()), "nop\n".to_string()));
+        }
+        out.push(Project { files: fs, toml: toml.clone() });
     }
     out
 }
@@ -299,6 +332,7 @@ pub fn run(ctx: &Ctx, replay: Option<&Value>, rest: &[String]) -> i32 {
 
     let mut projs = projects(if thorough { 3 } else { 2 });
     projs.extend(segment_projects(if thorough { 4 } else { 3 }));
+    projs.extend(same_stem_projects());
     // valid projects additionally with listing and symbols
     let extra: Vec<Project> = projs
         .iter()
